@@ -33,11 +33,13 @@ package core
 //
 // Choices the statement leaves open, taken from the code's documented behaviour:
 //
-//   - "assigned" (counts as used): set by ReservePod or by an add/update event that carries a node
-//     name for a pod that is not Succeeded/Failed; cleared by UnreservePod; it is sticky otherwise
-//     (a pod that terminates later keeps counting until it is deleted). A pod whose quota label
-//     changes is removed from the old group and added to the new one like a new pod (the
-//     reserved flag is not carried over); MigratePod carries the flag over;
+//   - "assigned" (counts as used): (the scheduler has reserved the pod — ReservePod not undone by
+//     UnreservePod — OR the latest delivered version carries a node name) AND the latest delivered
+//     version is not Succeeded/Failed. A terminated pod still counts in request: OnPodAdd books the
+//     request of any pod it is given and OnPodUpdate keeps it, so the incremental and the from-scratch
+//     path agree (asserted by the oracle and by the fresh-manager differential). A pod whose quota
+//     label changes is removed from the old group and added to the new one like a new pod (a
+//     reservation is not carried over); MigratePod carries the flag over;
 //   - Request(g) = ChildRequest(g) raised to Min(g), per key of Min, iff g does not lend;
 //     a parent is credited min(Request(child), Max(child)) per dimension;
 //     non-preemptible request/used are plain subtree sums (never max-limited);
@@ -210,10 +212,21 @@ type c01Pod struct {
 	term    bool // phase Succeeded/Failed
 	inMgr   bool
 	group   string
-	asg     bool
+	// reserved: the scheduler holds a reservation for the pod (ReservePod not undone by UnreservePod);
+	// in-memory scheduler state, not a property of the pod object
+	reserved bool
+	// label/parked: the pod's quota label names a group that did not exist when the pod arrived, so
+	// the plugin routed it to the default group (late-quota scenario, sequential unit)
+	label  string
+	parked bool
 	rv      int
 	touched bool
 }
+
+// asg: the pod counts as used. The scheduler has reserved it or its latest delivered version
+// carries a node name, AND that version is not Succeeded/Failed (a terminated pod uses nothing; it
+// still counts in request, on the incremental and on the from-scratch path alike).
+func (p *c01Pod) asg() bool { return p.inMgr && (p.reserved || p.node != "") && !p.term }
 
 func (p *c01Pod) key() string { return c01NS + "/" + fmt.Sprintf("p%d", p.slot) }
 
@@ -362,7 +375,7 @@ func (m *c01Model) compute() map[string]*c01Agg {
 		if p.np {
 			a.selfNPReq = a.selfNPReq.add(masked)
 		}
-		if p.asg {
+		if p.asg() {
 			a.selfUsed = a.selfUsed.add(masked)
 			if p.np {
 				a.selfNPUsed = a.selfNPUsed.add(masked)
@@ -871,7 +884,7 @@ func (e *c01Env) check(ctx *c01Ctx) {
 			}
 		}
 		for k, p := range want {
-			asg := p.asg
+			asg := p.asg()
 			pi, ok := s.PodCache[k]
 			if !ok {
 				c.Fail("C01/podcache/missing", "%s: group %s does not hold pod %s", where, n, k)
@@ -959,12 +972,11 @@ func (e *c01Env) buildFresh() *GroupQuotaManager {
 		if !p.inMgr {
 			continue
 		}
+		// every surviving pod ONCE, with its latest delivered version; a reservation that is not yet
+		// visible in the object (reserved, not bound) is scheduler state and is replayed as such
 		fresh.OnPodAdd(p.group, p.cur)
-		if p.asg && !(p.node != "" && !p.term) {
-			fresh.ReservePod(p.group, p.cur) // assigned by reserve, or assigned before it terminated
-		}
-		if !p.asg && p.node != "" && !p.term {
-			c.Harness("model: pod %s has a node, is not terminated and is not assigned", p)
+		if p.reserved && p.node == "" && !p.term {
+			fresh.ReservePod(p.group, p.cur)
 		}
 	}
 	return fresh
